@@ -11,14 +11,16 @@ proof obligation directly (not only the differential correspondence).
 Supported subset (anything else raises Shape -> the check fails closed):
   function   def f(read, <int params>..., *, <int kw-only params>): <stmts>   (a generator)
   stmts      x = <int expr> | x = read(<int expr>) | x -= <int expr> | x += <int expr>
-             | yield <bytes var> | if <cond>: break | while <cond>: <stmts>    (one loop, last statement)
+             | yield <bytes var> | if <cond>: break (or a bare `return`, the loop being the last statement)
+             | while <cond>: <stmts>    (one loop, last statement)
   int expr   name | integer literal | e + e | e - e | min(e, e) | max(e, e) | len(<bytes var>)
   cond       <int expr> (> | >= | < | <= | == | !=) <int expr> | not <bytes var> | <bytes var>
 Translation scheme: integers are Z; bytes values are list N; `read(n)` is
 Stream.read s (Z.to_nat n) threading the stream; `yield p` appends p to the list
 of yielded parts; the while loop is a Fixpoint on fuel whose parameters are the
-stream, the function's integer parameters, every assigned integer variable and
-the yielded list; `break` and a false loop test return Some (yielded, stream);
+stream, the function's integer parameters, the integer variables whose value
+flows from one iteration into the next (read before written in the loop body, or
+read by the loop test) and the yielded list; `break` and a false loop test return Some (yielded, stream);
 fuel exhaustion returns None.
 """
 import ast
@@ -126,14 +128,39 @@ class Tr:
             if not (isinstance(y, ast.Name) and y.id in self.bytes_vars):
                 raise Shape('yield of something that is not a bytes variable')
             return ind + 'let yielded := yielded ++ [%s] in\n' % y.id + self.block(rest, tail, brk, ind)
-        if isinstance(st, ast.If) and not st.orelse and len(st.body) == 1 and isinstance(st.body[0], ast.Break):
+        if isinstance(st, ast.If) and not st.orelse and len(st.body) == 1 and (
+                isinstance(st.body[0], ast.Break)
+                or (isinstance(st.body[0], ast.Return) and st.body[0].value is None and self.loop_is_last)):
+            # a bare `return` inside the loop of a generator whose loop is its last statement ends it like `break`
             if brk is None:
                 raise Shape('break outside a loop')
             return (ind + 'if %s then %s\n' % (self.cond(st.test), brk) + ind + 'else\n'
                     + self.block(rest, tail, brk, ind + '  '))
         raise Shape('unsupported statement: %s' % ast.dump(st)[:120])
 
+    def names_read(self, e):
+        return {n.id for n in ast.walk(e) if isinstance(n, ast.Name)}
+
+    def carried(self, loop):
+        """integer variables whose value flows from one iteration into the next (or into the loop test):
+        read before they are written in the (straight-line) loop body"""
+        need = set(self.names_read(loop.test))
+        written = set()
+        for st in loop.body:
+            if isinstance(st, ast.Assign):
+                need |= self.names_read(st.value) - written
+                written.add(st.targets[0].id)
+            elif isinstance(st, ast.AugAssign):
+                need |= (self.names_read(st.value) | {st.target.id}) - written
+                written.add(st.target.id)
+            elif isinstance(st, ast.If):
+                need |= self.names_read(st.test) - written
+            elif isinstance(st, ast.Expr):
+                need |= self.names_read(st.value) - written
+        return [v for v in self.int_vars if v in need]
+
     def translate(self, name):
+        self.loop_is_last = True
         body = [s for s in self.fn.body]
         if not body or not isinstance(body[-1], ast.While) or body[-1].orelse:
             raise Shape('%s: expected a single while loop as the last statement' % self.fn.name)
@@ -141,7 +168,7 @@ class Tr:
         if any(isinstance(n, ast.While) for s in body[:-1] + loop.body for n in ast.walk(s)):
             raise Shape('%s: nested or several loops' % self.fn.name)
         self.declare(body)
-        state = self.params + self.int_vars
+        state = self.params + self.carried(loop)
         # variables first assigned inside the loop start at 0
         pre_assigned = []
         for s in body[:-1]:
@@ -164,7 +191,7 @@ class Tr:
         out.append('')
         out.append('Definition %s (fuel : nat) (s : stream) %s : option (list (list N) * stream) :='
                    % (name, ' '.join('(%s : Z)' % v for v in self.params)))
-        init = ''.join('  let %s := 0%%Z in\n' % v for v in self.int_vars if v not in pre_assigned)
+        init = ''.join('  let %s := 0%%Z in\n' % v for v in self.carried(loop) if v not in pre_assigned)
         out.append(init + '  let yielded := @nil (list N) in\n'
                    + self.block(body[:-1], call, None, '  ') + '.')
         return '\n'.join(out)
